@@ -50,7 +50,7 @@ def evaluate(ctx, progs):
     for l in p.stdout.split("\n"):
         f = l.split("\t")
         if len(f) >= 4:
-            res[f[0]] = f[1:] + [""] * (9 - len(f[1:]))
+            res[f[0]] = f[1:] + [""] * (12 - len(f[1:]))
     n = {"EQ": 0, "EQT": 0, "DIFF": 0, "UNSUPPORTED": 0}
     n_in = n_out = n_from_mono = 0
     agree_m = definite_m = 0
@@ -60,6 +60,8 @@ def evaluate(ctx, progs):
     go_v = {"EQ": 0, "EQA": 0, "DIFF": 0, "UNSUPPORTED": 0}
     n_back = n_e2e = e2e_agree = e2e_def = 0
     e2e_reasons, e2e_samples, e2e_by_stream = {}, [], {}
+    n_dce_ok = n_emit = emit_def = emit_agree = 0
+    dce_reasons, emit_samples = {}, []
     for pid, *_ in [l.split("\t", 1) for l in lines]:
         r = res.get(pid)
         if r is None:
@@ -104,6 +106,25 @@ def evaluate(ctx, progs):
                 for w in [x for x in r[8].split(";") if x.strip()] or ["?"]:
                     k = w.strip()
                     e2e_reasons[k] = e2e_reasons.get(k, 0) + 1
+            # DCE contract of the compiled file; fragment of `core_to_emitted_go_preserves`
+            if r[9] == "dce=OK":
+                n_dce_ok += 1
+            else:
+                for k in sorted({":".join(x.strip().split(":")[::2]) for x in r[11].split(";") if x.strip()}):
+                    dce_reasons[k] = dce_reasons.get(k, 0) + 1
+            if r[10] == "EMIT-IN":
+                n_emit += 1
+                if len(emit_samples) < 5:
+                    emit_samples.append(pid)
+                o = progs[pid].get("out") or {}
+                oc, og = o.get("core"), o.get("go")
+                if oc and og and definite(oc[0]):
+                    emit_def += 1
+                    if (oc[0], oc[1], oc[2]) == (og[0], og[1], og[2]):
+                        emit_agree += 1
+                    elif kind in ("EQ", "EQA") and verdict in ("EQ", "EQT"):
+                        ctx.broken_ties.append(("core_to_emitted_go_preserves contradicted by evaluation",
+                                                f"{pid}: in InEmitFragment, model = real dumps, Sem(core)={oc[0]} Go.Sem(go)={og[0]}"))
         if infrag == "IN":
             n_in += 1
             bs["in_fragment"] += 1
@@ -166,6 +187,12 @@ def evaluate(ctx, progs):
             "in_fragment_with_definite_core_run": e2e_def,
             "of_those_real_go_outcome(Go.Sem)_equals_core_outcome(Sem)": e2e_agree,
             "samples_inside": e2e_samples,
+            "compiled_files_inside_the_DCE_contract(Dce.fileDceOK)": n_dce_ok,
+            "outside_the_DCE_contract_by_failing_clause(programs)": dict(sorted(dce_reasons.items(), key=lambda kv: -kv[1])),
+            "in_InEmitFragment(core_to_emitted_go_preserves speaks about them: Core -> emitted Go, no hypotheses)": n_emit,
+            "in_InEmitFragment_with_definite_core_run": emit_def,
+            "of_those_real_emitted_go_outcome(Go.Sem)_equals_core_outcome(Sem)": emit_agree,
+            "samples_in_InEmitFragment": emit_samples,
         },
         "samples_inside": samples_in, "samples_outside": samples_out, "diff_samples": diffs[:5],
     })
